@@ -169,6 +169,26 @@ def shard_words(cfgname, seed, count, hooked):
     return acc
 
 
+def shard_witness(which, part, nparts, seed, members):
+    """cube representatives: one word (plus solver-generated members) per joint decoder region, executed in User mode"""
+    from vf.props import decode_common as dc
+    if which == 'arm':
+        from vf.props.c06 import SPEC as spec
+    else:
+        from vf.props.c07 import SPEC32 as spec
+    acc = Acc()
+    rng = random.Random(seed)
+    n_arm, joint = spec.compute_joint()
+    for j, (w, a, row, trace) in enumerate(joint):
+        if j % nparts != part:
+            continue
+        for word in [w] + dc.members(w, trace, 32, rng, members):
+            cfgname = rng.choice(CFGS)
+            code = e1.enc_arm(word) if which == 'arm' else e1.enc_thumb(word, True) + b'\x00\xbf'
+            run_word(acc, rng, cfgname, which != 'arm', code, 'witness-' + which, ('wit', which, cfgname, word), hooked=rng.random() < 0.3)
+    return acc
+
+
 def shard_programs(cfgname, seed, count):
     acc = Acc()
     rng = random.Random(seed)
@@ -261,7 +281,7 @@ def shard_unpriv(seed, count):
 
 def run(ctx):
     ctx.rule = ('CPSR.M = User: every 16-bit Thumb halfword in each IT position (exhaustive), constructed words of every instruction that tries to '
-                'touch privileged state (MSR/CPS/SETEND/RFE/SRS/LDM^/STM^/SUBS PC,LR/ERET/SMC/SVC/MCR../LDRT..), random ARM and 32-bit Thumb words, '
+                'touch privileged state (MSR/CPS/SETEND/RFE/SRS/LDM^/STM^/SUBS PC,LR/ERET/SMC/SVC/MCR../LDRT..), random ARM and 32-bit Thumb words, one witness + members per joint decoder region (Thumb-32; ARM too in thorough), '
                 'test-suite words, and 2-6 step programs; generated state (secure / non-secure, MPU on/off, random banked registers, SPSRs, '
                 'system registers) on configurations ' + ', '.join(CFGS) + ', stock and hooked. Validity oracle, no reference semantics: after '
                 'the step either still User with A/I/F, every banked register / SPSR of other modes, ELR_hyp and every system register bit-identical '
@@ -285,6 +305,13 @@ def run(ctx):
         tasks.append((shard_programs, (c, ctx.shard_seed(k), ctx.n(800, 15000))))
         k += 1
     tasks += [(shard_unpriv, (ctx.shard_seed(k + i), ctx.n(600, 10000))) for i in range(4)]
+    from vf.props import c07
+    c07.SPEC32.compute_joint()
+    tasks += [(shard_witness, ('t32', i, 8, ctx.shard_seed(k + 20 + i), ctx.n(6, 40))) for i in range(8)]
+    if not ctx.quick:
+        from vf.props import c06
+        c06.SPEC.compute_joint()
+        tasks += [(shard_witness, ('arm', i, 16, ctx.shard_seed(k + 60 + i), 40)) for i in range(16)]
     ctx.pmap(_dispatch, tasks)
 
 
